@@ -241,3 +241,17 @@ template <typename Inner> struct Rd<BndR<Inner>> {
   std::size_t consumed() const { return d.reader().size(); }
   nop::BoundedReader<LibInner>* raw() { return &d.reader(); }
 };
+
+// BoundedReader with a limit of n bytes over a wrapped reader that has 4 MORE bytes (the caller supplies an array of n + 4):
+// the limit itself, not the end of the wrapped data, must stop the reads.
+template <typename Inner> struct BndLim {};
+template <typename Inner> struct Rd<BndLim<Inner>> {
+  enum { has_skip = Rd<Inner>::has_skip };
+  Rd<Inner> inner;
+  using LibInner = std::remove_pointer_t<decltype(std::declval<Rd<Inner>>().raw())>;
+  nop::Deserializer<nop::BoundedReader<LibInner>> d;
+  Rd(const std::uint8_t* b, std::size_t n) : inner(b, n + 4), d{inner.raw(), n} {}
+  template <typename T> nop::Status<void> read(T* v) { return d.Read(v); }
+  std::size_t consumed() const { return d.reader().size(); }
+  nop::BoundedReader<LibInner>* raw() { return &d.reader(); }
+};
